@@ -432,6 +432,8 @@ def replay(ctx, path):
         except Exception:
             det = {}
     inp = det.get('input', det) if isinstance(det, dict) else {}
+    if 'stage' not in inp and d.get('disagreements'):
+        inp = d['disagreements'][0].get('input', {})
     stage, index = inp.get('stage'), inp.get('index')
     if stage is None or index is None:
         print('REPLAY: the file does not identify a case')
